@@ -104,7 +104,7 @@ def generate(job):
         steps += [{"k": "foreign", "v": "", "pos": 1} for _ in range(rh.randint(1, 2))]
     steps.append({"k": "load", "v": "plain"})
     for _ in range(rh.randint(3, 8)):
-        steps.append({"k": rh.weighted([("load", 3), ("variant", 5), ("foreign", 3), ("other", 1), ("fail", 1), ("export", 2), ("include_override", 2)]), "v": rh.choice(["alias", "include_dict", "include_file", "permuted", "expanded"]), "pos": rh.randint(1, 400)})
+        steps.append({"k": rh.weighted([("load", 3), ("variant", 5), ("foreign", 3), ("other", 1), ("fail", 1), ("export", 2), ("include_override", 2), ("fail_retry", 1.5), ("stale_file", 1.5)]), "v": rh.choice(["alias", "include_dict", "include_file", "permuted", "expanded"]), "pos": rh.randint(1, 400)})
     steps.append({"k": "load", "v": "plain"})
     return {"card": card, "foreign": foreign, "other": other, "steps": steps, "data_seed": rs.randrange(1 << 30), "n": 5}
 
@@ -460,6 +460,76 @@ def execute(spec):
                         log.count("fault.load_interrupted_by_exception")
                     except Exception as e:
                         log.ev("fail-load-raised", err=type(e).__name__)
+                elif k == "fail_retry" and base_obs is not None:
+                    # the first amplitude build of a loader is interrupted by an exception; the SAME loader is then
+                    # asked again: it must either raise again or deliver the complete model
+                    from tf_pwa.config_loader import ConfigLoader
+
+                    between += 1
+                    c0 = {kk: vv for kk, vv in copy.deepcopy(card).items() if not kk.startswith("_")}
+                    with rng_seam(4242):
+                        cfgr = ConfigLoader(c0)
+                    tr = LineTracer(fire_at=st["pos"] * 25, exc_type=InjectedFault)
+                    fired = False
+                    try:
+                        with tr:
+                            with rng_seam(4242):
+                                cfgr.get_amplitude()
+                    except InjectedFault:
+                        fired = True
+                        log.count("fault.first_build_interrupted")
+                    except Exception as e:
+                        log.ev("fail-retry-raised", err=type(e).__name__)
+                        fired = True
+                    if fired:
+                        try:
+                            with rng_seam(4242):
+                                cfgr.get_amplitude()
+                            o4 = observe(cfgr)
+                        except Exception as e:
+                            import traceback
+
+                            tb = traceback.extract_tb(e.__traceback__)
+                            if "/verif/" in tb[-1].filename:
+                                raise
+                            log.count("probe.retry_after_failed_build_raised_again")
+                            o4 = None
+                        if o4 is not None and o4 != base_obs:
+                            diff = [kk for kk in o4 if o4[kk] != base_obs[kk]]
+                            log.fail("same-card-same-model", "retry-after-failed-build|%s" % "+".join(diff), "after an exception during the first get_amplitude() of a loader, asking the same loader again delivers a model that differs from a clean load in %s: %s vs %s" % (diff, json.dumps(o4[diff[0]])[:200], json.dumps(base_obs[diff[0]])[:200]), step=i)
+                            raise Failure()
+                elif k == "stale_file" and base_obs is not None:
+                    # a parameter file left over from an earlier version of the card (other fixed masses/widths)
+                    # is loaded as the very first call on a fresh loader: quantities the configuration fixes must
+                    # still come from the configuration, whatever the call order
+                    from tf_pwa.config_loader import ConfigLoader
+
+                    between += 1
+                    c0 = {kk: vv for kk, vv in copy.deepcopy(card).items() if not kk.startswith("_")}
+                    with rng_seam(4242):
+                        ref_cfg = ConfigLoader(copy.deepcopy(c0))
+                        want = {kk: float(vv) for kk, vv in ref_cfg.get_params().items()}
+                    stale = dict(want)
+                    fixedmw = [n for n in want if (n.endswith("_mass") or n.endswith("_width")) and n not in ref_cfg.get_amplitude().vm.trainable_vars]
+                    for n in fixedmw:
+                        stale[n] = round(want[n] * 1.05, 5)
+                    fn = os.path.join(scratch, "stale_%d.json" % i)
+                    with open(fn, "w") as f:
+                        json.dump(stale, f)
+                    got = {}
+                    for order in ("file_first", "amplitude_first"):
+                        with rng_seam(4242):
+                            cf = ConfigLoader(copy.deepcopy(c0))
+                            if order == "amplitude_first":
+                                cf.get_amplitude()
+                            cf.set_params(fn)
+                            got[order] = {kk: float(vv) for kk, vv in cf.get_params().items()}
+                    for n in fixedmw:
+                        if got["file_first"][n] != got["amplitude_first"][n]:
+                            log.fail("same-card-same-model", "stale-parameter-file|call-order", "loading a left-over parameter file gives %s = %r when set_params(file) is the first call on the loader but %r when the amplitude was built first (configuration value %r)" % (n, got["file_first"][n], got["amplitude_first"][n], want[n]), step=i)
+                            raise Failure()
+                    if fixedmw:
+                        log.count("probe.stale_file_checked")
                 elif k == "export" and base_obs is not None:
                     from tf_pwa.config_loader import ConfigLoader
 
